@@ -421,11 +421,25 @@ specialise(
     "C17",
     "b.units.android-package",
     c17_android,
-    {"n": [1, 2, 3]},
+    {"n": [1, 2]},
     timeout=300,
     kernel=("pyxform.validators.pyxform.android_package_name:validate_android_package_name",),
     shims=(),
     symbolic="package name of n symbolic printable characters",
     bounds="n in 1..4; accepted iff the reference Android application-id rule accepts",
     weight=40,
+)
+specialise(
+    "C17",
+    "b.units.android-package",
+    c17_android,
+    {"n": [3]},
+    tiers=("thorough",),
+    reach_if=lambda fx: False,
+    timeout=900,
+    kernel=("pyxform.validators.pyxform.android_package_name:validate_android_package_name",),
+    shims=(),
+    symbolic="package name of n symbolic printable characters",
+    bounds="n in 1..4; accepted iff the reference Android application-id rule accepts",
+    weight=300,
 )
